@@ -82,11 +82,18 @@ def check_pattern(ctx, tr, rng, k, j, forced=None):
     if forced:
         toks, text, fn, pats, kw, mode = forced
     else:
-        toks = gen.tree_pattern(rng, ents, ext=True, globstar=True, maxseg=4)
+        toks = None
+        aimed = rng.random() < 0.15
+        if aimed:
+            from .c06 import through_link_pattern
+            toks = through_link_pattern(rng, tr)
+        if not toks:
+            aimed = False
+            toks = gen.tree_pattern(rng, ents, ext=True, globstar=True, maxseg=4)
         if not toks or gen.ambiguous_adjacency(toks) or toks[0][0] == 'sep':
             return
         text = gen.ser(toks)
-        fn = ['EXTGLOB'] + [f for f in OPT if rng.random() < 0.27]
+        fn = ['EXTGLOB'] + [f for f in OPT if rng.random() < 0.27] + (['GLOBSTAR'] if aimed else [])
         if tr.has_dir_cycle():
             fn = [f for f in fn if f not in ('FOLLOW', 'GLOBSTARLONG')]
         pats, kw = text, {}
@@ -116,7 +123,11 @@ def check_pattern(ctx, tr, rng, k, j, forced=None):
     except Exception as e:  # noqa: BLE001
         ctx.disagree(f'glob raised {type(e).__name__}', dict(wit, exception=repr(e)[:200]))
         return
-    cands = list(tr.candidates(4))
+    cands = list(tr.candidates(5))
+    if len(cands) > 90:
+        head, tail = cands[:40], cands[40:]
+        rng.shuffle(tail)
+        cands = head + tail[:50]
     seen = set(cands)
     for p in res:
         q = T.norm_result(p)
@@ -214,7 +225,7 @@ def run(ctx):
     while k < limit and not ctx.out_of_time():
         k += 1
         rng = ctx.rng_for('t', ctx.shard, k)
-        spec = T.gen_spec(rng, max_entries=14, p_link=0.3)
+        spec = T.gen_spec(rng, max_entries=15, maxdepth=4 if k % 2 else 3, p_link=0.3)
         with T.Tree(spec, 'c04-') as tr:
             for j in range(10 if quick else 24):
                 with ctx.case(timeout=20, label=(ctx.shard, k, j)):
